@@ -89,7 +89,7 @@ var props = map[string]PropMeta{
 	},
 	"C11": {
 		Level: "exploration",
-		Rule: "SHIP level: one real connection (either role, any handshake progress up to completed) hit by 1-3 coinciding close causes drawn from {local CloseConnection safe/unsafe, peer close announce / unsolicited confirm, transport error reported by the read pump and/or concurrently by the write pump, handshake error, user abort, injected deviant frames} under seeded interleavings of pump, user, write-pump and timer tasks; HUB level: see DESIGN; oracle: exactly one HandleConnectionClosed per connection object; " +
+		Rule: "SHIP level: one real connection (either role, any handshake progress up to completed) hit by 1-3 coinciding close causes drawn from {local CloseConnection safe/unsafe, peer close announce / unsolicited confirm, transport error reported by the read pump and/or concurrently by the write pump, handshake error, user abort, injected deviant frames} under seeded interleavings of pump, user, write-pump and timer tasks; HUB level (half of the runs): two real hubs, 1-4 causes from {DisconnectSKI by either side, UnregisterRemoteSKI, re-register, unsafe close, reset, half-open, Shutdown} with gaps 0..25 s (0 = coinciding), double connections and immediate reconnects included; oracle: at most/exactly one HandleConnectionClosed per connection object (build-time probe), no dead connection registered, per SKI the last of {SetupRemoteDevice, RemoteSKIDisconnected} is 'set up' iff a completed connection is registered; " +
 			"non-trivial = at least two close causes present in the run; distinct = distinct (cause set, configuration, input set) tuples",
 		Real: ship1Real, Stub: ship1Stub,
 		QuickS: 20, ThoroughS: 360, QuickWorkers: 6,
